@@ -290,3 +290,58 @@ Example cached_snapshot_id_refuted :
   /\ get_snapshot_id new = Some (fresh 1)
   /\ fresh 0 <> fresh 1.
 Proof. vm_compute. repeat split. discriminate. Qed.
+
+(* ---- seventh wave ---- *)
+From Storage Require Import Db.SnapView Db.SnapViewProofs.
+
+Definition ex_view_db : db :=
+  {| live := apply_wops [] [WPut [b_root] k_a [1]]; files := []; uuids := 0; listeners := 0; fired := 0; idf_calls := 0 |}.
+
+(* a read transaction sees r/a = 1; another goroutine commits r/a = 2 and r/b, a third one rolls
+   back; SnapshotInTx inside the old transaction: the file holds r/a = 1 and no r/b, the live
+   database the later commit; restoring gives the view back *)
+Example ex_stale_snapshot :
+  let txs := [([WPut [b_root] k_a [2]; WPut [b_root] k_b [7]], true); ([WDel [b_root] k_a], false)] in
+  let d' := fst (stale_snapshot ex_view_db txs) in
+  files d' = [mark (fresh 0) (live ex_view_db)]
+  /\ lookup [b_root; k_a] (live d') = Some (EVal [2])
+  /\ lookup [b_root; k_b] (live d') = Some (EVal [7])
+  /\ lookup [b_root; k_a] (live (stale_restored ex_view_db [] txs [OTx [WRm [b_root]] true])) = Some (EVal [1])
+  /\ lookup [b_root; k_b] (live (stale_restored ex_view_db [] txs [OTx [WRm [b_root]] true])) = None.
+Proof. vm_compute. repeat split. Qed.
+
+(* the seeded variant: the copy is taken from a transaction begun at the moment of the call - the
+   commit made after the View began leaks into the file *)
+Example latest_snapshot_refuted :
+  let txs := [([WPut [b_root] k_a [2]; WPut [b_root] k_b [7]], true)] in
+  files (fst (latest_snapshot ex_view_db txs)) <> files (fst (stale_snapshot ex_view_db txs))
+  /\ exists c, files (fst (latest_snapshot ex_view_db txs)) = [c] /\ lookup [b_root; k_b] c = Some (EVal [7]).
+Proof. split; [vm_compute; discriminate|]. eexists. vm_compute. split; reflexivity. Qed.
+
+(* listener 0 waits for listener 1, listener 2 blocks for good, listener 3 waits for it, 4 waits
+   for itself, 5 for nobody, 6 for 0: with a goroutine each all are started; 1, 0, 6 return *)
+Definition ex_listeners : list lkind := [KWait 1; KRun; KBlock; KWait 2; KWait 4; KWait 9; KWait 0].
+
+Example ex_listeners_concurrent :
+  lrun ex_listeners (spawn_all ex_listeners) [0; 6; 2; 3; 4; 5; 1; 6; 0; 6; 3]%nat
+    = [LDone; LDone; LRunning; LRunning; LRunning; LRunning; LDone]
+  /\ returning ex_listeners = [true; true; false; false; false; false; true].
+Proof. vm_compute. split; reflexivity. Qed.
+
+(* the seeded variant: one goroutine calls them in registration order - listener 0 waits for
+   listener 1, which is never started; behind a blocker nobody is started *)
+Example sequential_listeners_refuted :
+  seq_started [KWait 1; KRun] = [true; false]
+  /\ seq_started [KRun; KBlock; KRun; KRun] = [true; true; false; false]
+  /\ returning [KWait 1; KRun] = [true; true].
+Proof. vm_compute. repeat split. Qed.
+
+(* the history layer: a stale snapshot and waiting listeners, erased *)
+Example ex_vrun :
+  let ops := [VM (MP (PX (XBase (OTx [WPut [b_root] k_a [1]] true)))); VAddListener (KWait 1); VAddListener KRun;
+              VSnapStale [WPut [b_root] k_a [2]] true; VM (MP (PX (XBase (ORestore 0))))] in
+  let v := vrun (fun _ => 7%nat) empty_vdb ops in
+  kinds v = [KWait 1; KRun]
+  /\ fired (base (px (vm v))) = 2%nat
+  /\ lookup [b_root; k_a] (live (base (px (vm v)))) = Some (EVal [1]).
+Proof. vm_compute. repeat split. Qed.
